@@ -2380,17 +2380,31 @@ def coarsen(reduction, x, axes, trim_excess=False, **kwargs):
         x = x.rechunk(new_chunks)
 
     name = "coarsen-" + tokenize(reduction, x, axes, trim_excess)
-    dsk = {
-        (name,)
-        + key[1:]: (apply, chunk.coarsen, [reduction, key, axes, trim_excess], kwargs)
-        for key in flatten(x.__dask_keys__())
-    }
 
     coarsen_dim = lambda dim, ax: int(dim // axes.get(ax, 1))
     chunks = tuple(
-        tuple(coarsen_dim(bd, i) for bd in bds if coarsen_dim(bd, i) > 0)
-        for i, bds in enumerate(x.chunks)
+        tuple(coarsen_dim(bd, i) for bd in bds) for i, bds in enumerate(x.chunks)
     )
+    # Blocks that become empty are dropped, unless an axis would be left
+    # without any block; the remaining blocks are renumbered accordingly
+    kept = [
+        [j for j, c in enumerate(cs) if c > 0] or [0] for cs in chunks
+    ]
+    renumber = [{j: n for n, j in enumerate(js)} for js in kept]
+    chunks = tuple(
+        tuple(cs[j] for j in js) for cs, js in zip(chunks, kept)
+    )
+    dsk = {
+        (name,)
+        + tuple(renumber[i][j] for i, j in enumerate(key[1:])): (
+            apply,
+            chunk.coarsen,
+            [reduction, key, axes, trim_excess],
+            kwargs,
+        )
+        for key in flatten(x.__dask_keys__())
+        if all(j in renumber[i] for i, j in enumerate(key[1:]))
+    }
 
     meta = reduction(np.empty((1,) * x.ndim, dtype=x.dtype), **kwargs)
     graph = HighLevelGraph.from_collections(name, dsk, dependencies=[x])
